@@ -2,7 +2,22 @@
 from __future__ import annotations
 
 import gens
+import pyref
 from framework import Case
+
+
+class _Two(dict):
+    """scope that binds every name to 2"""
+
+    def __contains__(self, k):
+        return True
+
+    def __getitem__(self, k):
+        return 2
+
+    def get(self, k, d=None):
+        return 2
+
 
 PROP = "C06"
 GENERATED = ['ParserTables']  # generated files this check's tie depends on
@@ -86,5 +101,7 @@ def second_pass(run, cases_, impl_out):
             s = c.line.split("\t", 1)[1]
             if s not in seen:
                 seen.add(s)
-                use.append(Case(f"USE\t{s}", "use"))
+                # keep the arithmetic of the use computable (power towers): every identifier is bound to 2
+                if all(pyref.feasible(d, _Two()) for d in s.split()):
+                    use.append(Case(f"USE\t{s}", "use"))
     return use
